@@ -320,6 +320,15 @@ def r_MDAGaussSeidel(env):
     return _mda("MDAGaussSeidel")
 
 
+def r_MDAGaussSeidel_ws(env):
+    """Warm-started from the last accessed cache entry (the number of iterations depends on the carried-over state)."""
+    return _mda("MDAGaussSeidel", warm_start=True)
+
+
+def r_MDAJacobi_ws(env):
+    return _mda("MDAJacobi", n_processes=1, warm_start=True)
+
+
 def r_MDANewtonRaphson(env):
     return _mda("MDANewtonRaphson", True)  # (Newton MDAs refuse weakly coupled disciplines)
 
@@ -409,6 +418,8 @@ EXTRA = {
     "MDOObjectiveScenarioAdapter": r_MDOObjectiveScenarioAdapter,
     "MDAJacobi": r_MDAJacobi,
     "MDAGaussSeidel": r_MDAGaussSeidel,
+    "MDAGaussSeidel/warm_start": r_MDAGaussSeidel_ws,
+    "MDAJacobi/warm_start": r_MDAJacobi_ws,
     "MDANewtonRaphson": r_MDANewtonRaphson,
     "MDAQuasiNewton": r_MDAQuasiNewton,
     "MDAGSNewton": r_MDAGSNewton,
